@@ -80,6 +80,9 @@ JOBS = {
     "L2": ("md", "am1_loose", "H2O", "xl"),
     "M2": ("md", "am1_loose", "H2O", "langevin"),
     "A4": ("sp", "am1_loose", "H2O"),
+    # thermostatted MD on two layouts of the same padded shape and elements (the engine object can be shared: flavour D)
+    "N1": ("md", "am1_loose", "H2O+OH-", "langevin"),
+    "N2": ("md", "am1_loose", "OH-+H2O", "langevin"),
     "Q": ("sp32", "am1_loose", "H2O"),  # a single-precision calculation (default dtype float32, restored afterwards)
     "Q2": ("sp32", "pm3_loose", "CH4"),
     "B2": ("sp", "pm3_loose", "CH4"),
@@ -113,6 +116,7 @@ class Ctx:
         self.dicts = {}
         self.drivers = {}
         self.pending = {}  # job -> (loss, molecule) for split forward/backward
+        self.engines = {}  # (settings, engine kind) -> MD engine object shared by flavour D
 
 
 def run_event(ev, ctx):
@@ -133,7 +137,7 @@ def run_event(ev, ctx):
         if sname not in ctx.dicts:
             ctx.dicts[sname] = SETTINGS[sname]()
         params = ctx.dicts[sname]
-    mol = _mol(molname)
+    mol = _mol(molname) if "+" not in molname else None
     try:
         if kind == "sp":
             molecule, es_new = None, None
@@ -181,12 +185,19 @@ def run_event(ev, ctx):
             (g,) = torch.autograd.grad(loss, molecule.coordinates)
             return {"gap": np.asarray(gap), "Etot": np.asarray(etot), "dgap_dx": g.detach().numpy().copy()}
         if kind == "md":
-            r = MD.run_md(spec[3], [mol], params, 2, dt=0.5, temp=300.0, seed=7, k=3,
+            mdmols = [_mol(n) for n in molname.split("+")]
+            eng = ctx.engines.get((sname, spec[3])) if reuse == "D" else None
+            r = MD.run_md(spec[3], mdmols, params, 2, dt=0.5, temp=300.0, seed=7, k=3,
                           out=dict(data=1, coordinates=1, velocities=1, forces=1, xyz=0, print_every=0, checkpoint_every=0),
-                          copy_params=False)  # fmt: skip  (the package gets the caller's dictionary itself)
+                          copy_params=False, engine_obj=eng)  # fmt: skip  (the package gets the caller's dictionary itself)
+            if reuse == "D":
+                ctx.engines[(sname, spec[3])] = r.get("engine")
             if r["error"]:
                 return {"raised": np.asarray(r["error"].split(":")[0])}
-            return {k: v for k, v in r["h5.0"].items()}
+            obs = {k: v for k, v in r["h5.0"].items()}
+            for i in range(1, len(mdmols)):
+                obs.update({f"mol{i}/{k}": v for k, v in r[f"h5.{i}"].items()})
+            return obs
     except Exception as e:  # noqa: BLE001
         return {"raised": np.asarray(type(e).__name__)}
     raise ValueError(ev)
@@ -331,6 +342,8 @@ def run(chk, tier, seed):
         kinds = ["f"] if JOBS[j][0] in ("grad", "splearn") else ["f", "d"]
         if JOBS[j][0] == "sp" and j in ("A", "A2", "A3", "E", "E2", "H"):
             kinds.append("D")
+        if j in ("N1", "N2"):
+            kinds.append("D")
         events += [f"{j}:{r}" for r in kinds]
     # reference: every event alone in a fresh process (twice: determinism of the harness itself)
     ref1 = pmap(t_sequence, [[e] for e in events], chunk=1, timeout=900, progress="C15 references")
@@ -360,7 +373,7 @@ def run(chk, tier, seed):
     if tier == "quick":
         stateful = ["A2:d", "A3:D", "E:d", "G:f", "X2:f", "AL:f"]
         probes_small = ["A:d", "F:f", "AL2:f"]
-        probes1 = ["A:d", "A2:d", "E2:d", "F:f", "L:f", "H:d", "D:d", "A:D", "AL:f", "A4:d", "PS:f", "P:d", "B2:f", "Q:f"]
+        probes1 = ["A:d", "A2:d", "E2:d", "F:f", "L:f", "H:d", "D:d", "A:D", "AL:f", "A4:d", "PS:f", "P:d", "B2:f", "Q:f", "N2:D"]
     else:
         probes1 = events
     for p in probes1:  # depth 1: full event alphabet as prefix
@@ -375,9 +388,9 @@ def run(chk, tier, seed):
         # dictionaries and drivers, differentiable jobs, refused calls, learned lists, MD engines, single precision,
         # another parameter directory) in front of every probe of the medium probe set; depth 3 on the small sets.
         # (the full alphabet squared in front of every event is 1.4e5 two-second executions: beyond the budget)
-        stateful2 = stateful + ["A4:d", "L2:d", "M2:d", "Q:f", "Q2:d", "PS:d", "P:d", "AL2:f", "D:d", "E2:D", "M:d"]
+        stateful2 = stateful + ["A4:d", "L2:d", "M2:d", "Q:f", "Q2:d", "PS:d", "P:d", "AL2:f", "D:d", "E2:D", "M:d", "N1:D"]
         stateful2 = [e for e in dict.fromkeys(stateful2) if e in events]
-        probes_med = ["A:d", "A:D", "A2:d", "E2:d", "F:f", "F2:f", "L:f", "M:f", "H:d", "D:d", "AL:f", "A4:d", "PS:f", "P:d", "B2:f", "Q:f", "C:f"]
+        probes_med = ["A:d", "A:D", "A2:d", "E2:d", "F:f", "F2:f", "L:f", "M:f", "H:d", "D:d", "AL:f", "A4:d", "PS:f", "P:d", "B2:f", "Q:f", "C:f", "N2:D"]
         chk.extra["thorough_depth2_prefix_alphabet"] = stateful2
         chk.extra["thorough_depth2_probes"] = probes_med
         for a, b in itertools.product(stateful2, repeat=2):
@@ -475,6 +488,13 @@ def run(chk, tier, seed):
             chk.violation({"part": "threads", "probe": e, "threads": n}, f"{e} with {n} intra-op threads differs from 1 thread: {bad}", replay={"threads": [e, n]})
 
 
+def _species_of(molname):
+    out = []
+    for n in molname.split("+"):
+        out += list(M.get(n)["species"])
+    return out
+
+
 def _driver_lacks_elements(s):
     """probe reuses a shared driver (flavour D) that was constructed by an earlier event for a molecule
     whose element set does not contain the probe's elements"""
@@ -482,11 +502,11 @@ def _driver_lacks_elements(s):
     if pr != "D":
         return False
     sname = JOBS[pj][1]
-    mine = set(M.get(JOBS[pj][2])["species"])
+    mine = set(_species_of(JOBS[pj][2]))
     for e in s[:-1]:
         j, r = e.split(":")[0], e.split(":")[1]
         if r == "D" and JOBS[j][1] == sname:
-            return not mine <= set(M.get(JOBS[j][2])["species"])  # the FIRST D event of the slot built the driver
+            return not mine <= set(_species_of(JOBS[j][2]))  # the FIRST D event of the slot built the driver
     return False
 
 
@@ -496,10 +516,10 @@ def _other_elements(s):
     if pr == "f":
         return False
     sname = JOBS[pj][1]
-    mine = set(M.get(JOBS[pj][2])["species"])
+    mine = set(_species_of(JOBS[pj][2]))
     for e in s[:-1]:
         j, r = e.split(":")[0], e.split(":")[1]
-        if r != "f" and JOBS[j][1] == sname and not mine <= set(M.get(JOBS[j][2])["species"]):
+        if r != "f" and JOBS[j][1] == sname and not mine <= set(_species_of(JOBS[j][2])):
             return True
     return False
 
